@@ -33,10 +33,12 @@ def check(ck):
     prog = ck.prog
     ed = prog.cls(TP, "EventData")
     fr = prog.cls(TP, "FutureResult")
+    EF = common.event_fields(prog)
+    EV, DATA, EXC = "self." + EF["event"], "self." + EF["data"], "self." + EF["exception"]
     # ---- C16.1 publish order ----------------------------------------------------------------------
     setters = set()     # methods of EventData that set the event
     for m, fi in ed.methods.items():
-        if any(isinstance(c, ast.Call) and dump(c.func) == "self.__event.set" for c in ast.walk(fi.node)):
+        if any(isinstance(c, ast.Call) and dump(c.func) == EV + ".set" for c in ast.walk(fi.node)):
             setters.add(m)
     changed = True
     while changed:
@@ -51,10 +53,10 @@ def check(ck):
         ck.require(m in setters, "C16.1", "%s: sets the event" % q.fn(fi), "event set", "EventData.%s never sets the event" % m, q.loc(fi, fi.node))
         g = cfg_of(fi)
         d = dominators(g)
-        pubs = [n for n in g.live_nodes() for c in node_calls(n) if dump(c.func) == "self.__event.set" or
+        pubs = [n for n in g.live_nodes() for c in node_calls(n) if dump(c.func) == EV + ".set" or
                 (isinstance(c.func, ast.Attribute) and dump(c.func.value) == "self" and c.func.attr in setters)]
         stores = [n for n in g.live_nodes() if n.kind == "stmt" and isinstance(n.ast, ast.Assign) and
-                  any(dump(t) in ("self.__data", "self.__exception") for t in n.ast.targets)]
+                  any(dump(t) in (DATA, EXC) for t in n.ast.targets)]
         ck.require(len(stores) >= 1 or any(True for _ in pubs), "C16.1", "%s: stores present" % q.fn(fi), "outcome stored", "no outcome stored", q.loc(fi, fi.node))
         for s_ in stores:
             late = [p for p in pubs if p.id in d[s_.id]]
@@ -64,18 +66,18 @@ def check(ck):
         fields_written = set(dump(t)[5:] for s_ in stores for t in s_.ast.targets)
         # what the method must have stored (directly, or through a callee that runs BEFORE nothing else sets the event)
         if m == "raise_exception":
-            ck.require("__exception" in fields_written, "C16.1", "%s: stores the exception" % q.fn(fi), "stores __exception",
+            ck.require(EF["exception"] in fields_written, "C16.1", "%s: stores the exception" % q.fn(fi), "stores the exception field",
                        "raise_exception does not store the exception", q.loc(fi, fi.node))
     fw = prog.func(TP, "EventData.wait")
     gw = cfg_of(fw)
     dw = dominators(gw)
-    waitn = [n for n in gw.live_nodes() for c in node_calls(n) if dump(c.func) == "self.__event.wait"]
+    waitn = [n for n in gw.live_nodes() for c in node_calls(n) if dump(c.func) == EV + ".wait"]
     if len(waitn) != 1:
-        raise AnalysisError("anchor vanished: self.__event.wait in EventData.wait")
+        raise AnalysisError("anchor vanished: <event>.wait in EventData.wait")
     for n in gw.live_nodes():
         for e in node_exprs(n):
             for sub in ast.walk(e):
-                if isinstance(sub, ast.Attribute) and dump(sub) in ("self.__exception", "self.__data") and isinstance(sub.ctx, ast.Load):
+                if isinstance(sub, ast.Attribute) and dump(sub) in (EXC, DATA) and isinstance(sub.ctx, ast.Load):
                     ck.require(waitn[0].id in dw[n.id], "C16.1", "%s: reads %s after event.wait()" % (q.fn(fw), dump(sub)), "read after the wait",
                                "wait() reads %s before waiting for the event" % dump(sub), q.loc(fw, n))
     ck.floor("C16.1", 5)
@@ -99,9 +101,6 @@ def check(ck):
         after_call = any(x in [m.id for m in mcall] for x in path)
         if not after_call:
             continue
-        par = ex.parent.get(st)
-        if nid == g.raise_exit.id and par is not None and par[0] in notif:
-            continue      # an exception escaping the notifier itself is C16.3's business
         ck.require(cnt == 1, "C16.2", "%s: %s exit after %d notification(s)" % (q.fn(fex), "normal" if nid == g.return_exit.id else "exceptional", cnt),
                    "__notify reached exactly once", "execute can finish (%s exit) after %d calls of __notify: a registered callback is invoked %s"
                    % ("normal" if nid == g.return_exit.id else "exceptional", cnt, "twice" if cnt > 1 else "never"), q.loc(fex, fex.node), ex.describe_path(st))
